@@ -20,11 +20,13 @@ import (
 )
 
 type c08Job struct {
-	Readings []string `json:"readings"` // per slot: "", "5000", "-3000", "10" (sentinel 2), "abc" (sentinel 3)
-	Fates    []string `json:"fates"`    // per slot: deliver | drop | dup
-	Early    string   `json:"early"`    // none | dialfail | badreply | ok-drop | ok-deliver
-	Between  string   `json:"between"`  // none | rotate | restart
-	Base     int      `json:"base"`     // first timeslot (0 = the default colliding base)
+	Readings []string `json:"readings"`  // per slot: "", "5000", "-3000", "10" (sentinel 2), "abc" (sentinel 3)
+	Fates    []string `json:"fates"`     // per slot: deliver | drop | dup
+	Early    string   `json:"early"`     // none | dialfail | badreply | ok-drop | ok-deliver
+	Between  string   `json:"between"`   // none | rotate | restart
+	Base     int      `json:"base"`      // first timeslot (0 = the default colliding base)
+	Slots    []int    `json:"slots"`     // explicit timeslots per reading (wide family); empty = consecutive from Base
+	FixedNow int      `json:"fixed_now"` // server clock stays here (wide family); 0 = the clock follows the readings
 }
 
 const c08Base = 2099 // timeslot of the first reading: bits 3,4,5 of one bitfield byte, so that a mirrored or shifted bit mapping makes a delivered slot shadow a lost one
@@ -35,10 +37,37 @@ func c08Run(j c08Job) *jobReport {
 	if j.Base != 0 {
 		c08Base = j.Base
 	}
-	readingClass := func(j c08Job, ts uint32) string { return readingClassAt(j, ts, c08Base) }
+	slotOf := func(i int) int {
+		if len(j.Slots) > 0 {
+			return j.Slots[i]
+		}
+		return c08Base + i
+	}
+	indexOf := func(ts uint32) int {
+		for i := range j.Readings {
+			if slotOf(i) == int(ts) {
+				return i
+			}
+		}
+		return -1
+	}
+	readingClass := func(j c08Job, ts uint32) string {
+		if i := indexOf(ts); i >= 0 {
+			return readingClassAt(j, uint32(c08Base+i), c08Base)
+		}
+		return "?"
+	}
+	startNow := c08Base
+	if j.FixedNow != 0 {
+		startNow = j.FixedNow
+	}
 	cfgDesc := fmt.Sprintf("%+v", j)
 	header := "timestamp,energy (mWh)\n"
-	p, err := newPairWorld("c08", 10000, []string{fmt.Sprintf("now:%d", c08Base)}, &header, 2000)
+	histOrigin := uint32(2000)
+	if len(j.Slots) > 0 {
+		histOrigin = 100
+	}
+	p, err := newPairWorld("c08", 10000, []string{fmt.Sprintf("now:%d", startNow)}, &header, histOrigin)
 	if err != nil {
 		rep.fail("harness/setup", err.Error())
 		return rep
@@ -65,7 +94,7 @@ func c08Run(j c08Job) *jobReport {
 			return false
 		}
 		ts := binary.LittleEndian.Uint32(dg[4:8])
-		i := int(ts) - c08Base
+		i := indexOf(ts)
 		if i >= 0 && i < len(j.Fates) && p.phase == "originals" {
 			switch j.Fates[i] {
 			case "drop":
@@ -85,15 +114,19 @@ func c08Run(j c08Job) *jobReport {
 		if r == "" {
 			continue
 		}
-		content += fmt.Sprintf("%d,%s\n", genesis+int64(c08Base+i)*300+7, r)
+		content += fmt.Sprintf("%d,%s\n", genesis+int64(slotOf(i))*300+7, r)
 		p.Cli.setEnergy(content)
-		p.Srv.apply(fmt.Sprintf("now:%d", c08Base+i))
+		if j.FixedNow == 0 {
+			p.Srv.apply(fmt.Sprintf("now:%d", slotOf(i)))
+		}
 		if err := p.Cli.tick(); err != nil {
 			rep.fail("harness/tick", err.Error())
 			poisoned = true
 			return rep
 		}
-		latest = uint32(c08Base + i)
+		if uint32(slotOf(i)) > latest {
+			latest = uint32(slotOf(i))
+		}
 	}
 	p.phase = "early"
 	round := func(tag string) (bool, bool) {
@@ -167,7 +200,7 @@ func c08Run(j c08Job) *jobReport {
 		held[snap.ReportsOffset+sl.Index] = sl.Report.PowerOutput
 	}
 	for i, r := range j.Readings {
-		ts := uint32(c08Base + i)
+		ts := uint32(slotOf(i))
 		want := c08Value(r)
 		if r == "" {
 			if _, okh := held[ts]; okh {
@@ -303,8 +336,25 @@ func init() {
 				jobs = append(jobs, c08Job{Readings: rs, Fates: fs, Early: "none", Between: "none", Base: denseBase})
 			}
 		}
+		// wide family: the server clock stays at 1000 while the device has readings over the whole acceptance
+		// range, the newest one AHEAD of the server clock; every subset of the older originals is lost
+		for _, newest := range []int{1432, 1100, 1000} {
+			slots := []int{568, 569, 600, 700, 999, newest}
+			for mask := 0; mask < 32; mask++ {
+				var rs, fs []string
+				for i := range slots {
+					rs = append(rs, "5000")
+					if i < 5 && mask&(1<<i) != 0 {
+						fs = append(fs, "drop")
+					} else {
+						fs = append(fs, "deliver")
+					}
+				}
+				jobs = append(jobs, c08Job{Readings: rs, Fates: fs, Early: "none", Between: "none", Slots: slots, FixedNow: 1000})
+			}
+		}
 		run.Assumption("loss, duplication and reordering are decided per datagram by the scripted network; readings fit 32 signed bits (the property's own restriction)")
-		rc := runJobCheck(run, "c08", jobs, "every combination of per-slot reading {none, +5000, -3000, sentinel 2 (, sentinel 3, 70000)} x fate of the original datagram {delivered, dropped, duplicated} x earlier sync round {none, dial fails, malformed reply, ok with all retransmissions dropped, ok delivered} x {nothing, week rotation, server restart} before a final fault-free round on a real client and a real server; afterwards every datagram ever on the wire is re-delivered in reverse order; plus dense runs of 18 consecutive slots from a bitfield byte boundary with none / each single / each adjacent pair of originals lost; distinct = (fate, early round, in-between event) classes; executions = evaluations")
+		rc := runJobCheck(run, "c08", jobs, "every combination of per-slot reading {none, +5000, -3000, sentinel 2 (, sentinel 3, 70000)} x fate of the original datagram {delivered, dropped, duplicated} x earlier sync round {none, dial fails, malformed reply, ok with all retransmissions dropped, ok delivered} x {nothing, week rotation, server restart} before a final fault-free round on a real client and a real server; afterwards every datagram ever on the wire is re-delivered in reverse order; plus a wide family (server clock fixed, readings at now-432, now-431, now-400, now-300, now-1 and a newest reading at now / now+100 / now+432, every subset of the older originals lost), plus dense runs of 18 consecutive slots from a bitfield byte boundary with none / each single / each adjacent pair of originals lost; distinct = (fate, early round, in-between event) classes; executions = evaluations")
 		return rc
 	}
 }
